@@ -40,6 +40,11 @@ def variants(obs: pd.Series, rng):
     z.iloc[rng.sample(range(n), max(1, n // 50))] = 0.0
     out["exact_zero_reads"] = z
     out["times_zero"] = obs * 0.0
+    # sign and magnitude patterns (net-metered sites export: usage can be negative)
+    out["negated"] = -obs
+    out["some_negative"] = obs.where(np.arange(n) % 7 != 3, -obs)
+    out["absolute"] = obs.abs()
+    out["huge"] = obs.abs() * 1e6 + 1e3
     out["absent"] = None
     return out
 
@@ -167,10 +172,17 @@ def run(ctx):
                     compare(bouts["as_metered"], o, name, "billing", res, dict(start=start, days=days))
                 sigs.add(("billing", name))
 
-    # ---- hourly (fitted on a full synthetic year: every month and weekday covered)
+    # ---- hourly (fitted on a full synthetic year: every month and weekday covered); the second model is fitted on an
+    # exporting (net-metered) meter without irradiance, so that part of its counterfactual is NEGATIVE
     hm = fitted_hourly()
-    hjs = hm.to_json()
-    for start, days in [("2021-03-08", 14), ("2021-10-31", 10)] + ([("2021-06-01", 60)] if thorough else []):
+    from opendsm.eemeter.models.hourly.data import HourlyBaselineData
+    exp_df = synth_hourly(days=365, seed=2)
+    hod = exp_df.index.hour.to_numpy()
+    exp_df["observed"] = exp_df["observed"] - 3.2 * np.clip(np.sin((hod - 6) / 12 * np.pi), 0, None)
+    hm_exp = HourlyModel().fit(HourlyBaselineData(exp_df, is_electricity_data=False), ignore_disqualification=True)
+    hourly_models = [("ordinary", hm.to_json(), True)] + [("exporting", hm_exp.to_json(), False)]
+    for (mname, hjs, electric), (start, days) in [(hmod, sp) for hmod in hourly_models
+                                                  for sp in ([("2021-03-08", 14), ("2021-10-31", 10)] + ([("2021-06-01", 60)] if thorough else []))][: (3 if not thorough else 99)]:
         idx = pd.date_range(pd.Timestamp(start, tz=TZ), periods=24 * days, freq="h")
         h = np.arange(len(idx))
         temp = pd.Series(55 + 20 * np.sin(h / 24 * 6.283), index=idx, name="temperature")
@@ -182,14 +194,16 @@ def run(ctx):
                 df["observed"] = v.copy()
             try:
                 m = HourlyModel.from_json(hjs)
-                outs[name] = m.predict(HourlyReportingData(df, is_electricity_data=True))
+                outs[name] = m.predict(HourlyReportingData(df, is_electricity_data=electric), ignore_disqualification=True)
             except Exception as e:  # noqa
-                res["oracle_failures"].append(dict(clause="predict_raises_for_variant", family="hourly", variant=name, start=start, days=days,
+                res["oracle_failures"].append(dict(clause="predict_raises_for_variant", family="hourly", variant=name, start=start, days=days, model=mname,
                                                    error=f"{type(e).__name__}: {str(e)[:100]}"))
         for name, o in outs.items():
             if name != "absent" and "absent" in outs:
-                compare(outs["absent"], o, name, "hourly", res, dict(start=start, days=days))
-            sigs.add(("hourly", name))
+                compare(outs["absent"], o, name, "hourly", res, dict(start=start, days=days, model=mname))
+            sigs.add(("hourly", mname, name))
+        if "absent" in outs:
+            res["hist"][f"hourly_{mname}_negative_predictions"] = int((outs["absent"]["predicted"] < 0).sum())
 
     # ---- CalTRACK hourly
     try:
@@ -252,7 +266,7 @@ def run(ctx):
     res["samples"] = [dict(family="daily", variants=list(variants(pd.Series([1.0, 2.0, 3.0]), random.Random(0)).keys())), dict(model_line=lines[0][:160] if lines else None)]
     res["distinct_nontrivial"] = len(sigs)
     res["rule"] = ("paired public predict() runs per family (daily, billing, hourly fitted on a full year, CalTRACK hourly) over spans that include "
-                   "DST changes, observed as metered / x3.5 / x0.001 / shuffled / 10% NaN / all NaN / exact zero reads / x0 / column absent, "
+                   "DST changes, observed as metered / x3.5 / x0.001 / shuffled / 10% NaN / all NaN / exact zero reads / x0 / negated / partly negative / absolute / huge / column absent (hourly also with a model fitted on an exporting meter, whose counterfactual is partly negative), "
                    "every variant built from its own copies of the input; paired synthetic frames through _predict and the Lean model. "
                    "distinct = (family, variant), (split, size)")
     return res
